@@ -3,6 +3,7 @@ From Boltons Require Import Lib.Prelude Lib.C02_Syntax Spec.C02_Spec Model.C02_M
   Model.C02_PtrModel Model.C02_PtrCache Proofs.C02_PtrLemmas Proofs.C02_PtrRep Proofs.C02_PtrSim Check.C02_Check
   Model.C02_PtrInterp Gen.C02_Gen Proofs.C02_GenObl Proofs.C02_SpecSane
   Model.C02_MethInterp Gen.C02_GenM Proofs.C02_MethObl Proofs.C02_HeapThms
+  Spec.C02_SpecImpure Model.C02_Impure Proofs.C02_ImpureRefine
   Proofs.C02_Lists Proofs.C02_Inv Proofs.C02_Heap Proofs.C02_Thms Proofs.C02_Counters Proofs.C02_Recency.
 Close Scope N_scope.
 Open Scope nat_scope.
@@ -553,4 +554,40 @@ Example C02_heap_thms_inhabited :
   run_logs c [] ops = [[1; 2; 1; 1; 2]; [2; 1; 3; 1; 2]]
   /\ run_counts c [] ops = [(3, 1, 1)%N; (0, 0, 0)%N]
   /\ map (fun p => keys (p_flatten (ps_ring p))) (prun_heap c [] ops) = [[1; 2]; [1; 2]].
+Proof. vm_compute. repeat split. Qed.
+
+(* ---- on_miss that raises and / or re-enters the cache (Spec/C02_SpecImpure.v, Model/C02_Impure.v) --------- *)
+(* for every configuration with max_size >= 1, every behaviour table whose scripts use only
+   assignments / deletions / pop-with-default / clear, and every list of (operation,
+   observation) pairs: observations the extended model reproduces are accepted by the
+   extended reference (the miss is counted before on_miss runs; what on_miss does to the
+   cache happens then; a returned value is assigned -- the key may meanwhile be present --
+   a raised exception leaves the lookup, a KeyError being answered by get/setdefault's
+   default as a soft miss; soft <= miss throughout) *)
+Theorem C02_refines_impure : forall c beh init steps,
+  1 <= c_max c -> scripts_ok beh ->
+  xagree_check c beh init steps = true -> xspec_check c beh init steps = true.
+Proof. exact xagree_implies_xholds. Qed.
+Print Assumptions C02_refines_impure.
+
+Theorem C02_verdict_sound_impure : forall k,
+  beh_ok k = true -> c02_xagree k = true -> c02_xholds k = true.
+Proof. exact xverdict_sound. Qed.
+Print Assumptions C02_verdict_sound_impure.
+
+Example C02_impure_inhabited :
+  let c := mkCfg LRI 2 (Some (fun k => k + 100)) in
+  let beh := fun k => match k with
+                      | 1 => mkBeh [SetItem 1 7] None            (* write-through loader *)
+                      | 2 => mkBeh [] (Some KeyError)            (* raises *)
+                      | 3 => mkBeh [Clear; SetItem 9 9] (Some ValueError)
+                      | _ => mkBeh [] None
+                      end in
+  let m0 := fst (init_cache c []) in
+  let '(m1, o1) := xstep1 c beh m0 (GetItem 1) in
+  let '(m2, o2) := xstep1 c beh m1 (Get 2 5) in
+  let '(m3, o3) := xstep1 c beh m2 (GetItem 3) in
+  (o1, o2, o3) = (Ok (OVal 101), Ok (OVal 5), Raise ValueError)
+  /\ ring m1 = [(1, 101)] /\ ring m3 = [(9, 9)]
+  /\ (hit m3, miss m3, soft m3) = (0, 3, 1)%N /\ calls m3 = [3; 2; 1].
 Proof. vm_compute. repeat split. Qed.
